@@ -112,6 +112,7 @@ type Loop struct {
 
 // FnCtx is the translation context of one function.
 type FnCtx struct {
+	wfEmitted map[string]bool // heap-wf facts already emitted for spec-level field reads
 	E           *Engine
 	M           *Model
 	F           *ssa.Function
